@@ -3,7 +3,7 @@ CHECK_DEADLOCK FALSE
 CONSTANTS
   MaxLen = 3
   MaxTok = 2
-  Kinds = {"Ref", "Vec", "String", "Box", "ChunkIter", "RawIter", "Splice", "Drain"}
+  Kinds = {"Ref", "Vec", "Box", "ChunkIter", "Splice", "LeakRef"}
 INVARIANTS
   EmitInv
   OrdinaryAccepted
